@@ -67,6 +67,8 @@ int sbdf_va_create_plain(sbdf_object const* array, sbdf_valuearray** handle)
 	err = sbdf_obj_copy(array, &(*handle)->object1);
 	if (err)
 	{
+		free(*handle);
+		*handle = 0;
 		return err;
 	}
 
@@ -132,11 +134,13 @@ int sbdf_va_create_rle(sbdf_object const* array, sbdf_valuearray** handle)
 			if (elem_size < 0)
 			{
 				free(*handle);
+				*handle = 0;
 				return elem_size;
 			}
 			else if (elem_size == 0)
 			{
 				free(*handle);
+				*handle = 0;
 				return SBDF_ERROR_UNKNOWN_TYPEID;
 			}
 			is_string = 0;
@@ -163,23 +167,27 @@ int sbdf_va_create_rle(sbdf_object const* array, sbdf_valuearray** handle)
 			{
 				if (out_size == out_capacity)
 				{
+					char* new_out;
+					unsigned char* new_run;
+
 					out_capacity = 1 + out_capacity * 3 / 2;
 
-					if (out_base)
+					/* a failed realloc leaves the old block valid: keep it for the cleanup */
+					new_out = out_base ? realloc(out_base, elem_size * out_capacity) : malloc(elem_size * out_capacity);
+					if (new_out)
 					{
-						out_base = realloc(out_base, elem_size * out_capacity);
-						run_out_base = realloc(run_out_base, out_capacity);
+						out_base = new_out;
 					}
-					else
+					new_run = run_out_base ? realloc(run_out_base, out_capacity) : malloc(out_capacity);
+					if (new_run)
 					{
-						out_base = malloc(elem_size * out_capacity);
-						run_out_base = malloc(out_capacity);
+						run_out_base = new_run;
 					}
 
-					if (!out_base || !run_out_base)
+					if (!new_out || !new_run)
 					{
-						free(*handle);
-						return SBDF_ERROR_OUT_OF_MEMORY;
+						err = SBDF_ERROR_OUT_OF_MEMORY;
+						goto fail;
 					}
 
 					out = out_base + elem_size * out_size;
@@ -198,10 +206,8 @@ int sbdf_va_create_rle(sbdf_object const* array, sbdf_valuearray** handle)
 					void* copy = sbdf_copy_array(prev_data);
 					if (!copy)
 					{
-						free(run_out_base);
-						free(out_base);
-						free(*handle);
-						return SBDF_ERROR_OUT_OF_MEMORY;
+						err = SBDF_ERROR_OUT_OF_MEMORY;
+						goto fail;
 					}
 					*(void**)out = copy;
 				}
@@ -238,11 +244,26 @@ int sbdf_va_create_rle(sbdf_object const* array, sbdf_valuearray** handle)
 
 		if (err)
 		{
-			sbdf_va_destroy(*handle);
+			goto fail;
 		}
 
 		free(run_out_base);
 		free(out_base);
+		return SBDF_OK;
+
+fail:
+		/* the copies collected so far belong to nobody yet */
+		if (is_array && out_base)
+		{
+			for (i = 0; i < out_size; ++i)
+			{
+				sbdf_dispose_array(((void**)out_base)[i]);
+			}
+		}
+		free(run_out_base);
+		free(out_base);
+		sbdf_va_destroy(*handle);
+		*handle = 0;
 	}
 
 	return err;
@@ -289,10 +310,14 @@ int sbdf_va_create_bit(sbdf_object const* array, sbdf_valuearray** handle)
 		elem_size = sbdf_get_unpacked_size(vt);
 		if (elem_size < 0)
 		{
+			free(*handle);
+			*handle = 0;
 			return elem_size;
 		}
 		else if (elem_size == 0)
 		{
+			free(*handle);
+			*handle = 0;
 			return SBDF_ERROR_UNKNOWN_TYPEID;
 		}
 	}
@@ -304,6 +329,7 @@ int sbdf_va_create_bit(sbdf_object const* array, sbdf_valuearray** handle)
 	if (!out)
 	{
 		free(*handle);
+		*handle = 0;
 		return SBDF_ERROR_OUT_OF_MEMORY;
 	}
 
@@ -352,7 +378,9 @@ int sbdf_va_create_bit(sbdf_object const* array, sbdf_valuearray** handle)
 	t = calloc(1, sizeof(sbdf_object));
 	if (!t)
 	{
+		free(out - packed_len);
 		free(*handle);
+		*handle = 0;
 		return SBDF_ERROR_OUT_OF_MEMORY;
 	}
 	t->type = bytearray_vt;
@@ -360,17 +388,21 @@ int sbdf_va_create_bit(sbdf_object const* array, sbdf_valuearray** handle)
 	t->data = malloc(sizeof(void*));
 	if (!t->data)
 	{
+		free(out - packed_len);
 		free(*handle);
+		*handle = 0;
 		free(t);
 		return SBDF_ERROR_OUT_OF_MEMORY;
 	}
 
 	*(void**)t->data = sbdf_ba_create(out - packed_len, packed_len);
-	if (!t->data)
+	if (!*(void**)t->data)
 	{
+		free(out - packed_len);
 		free(*handle);
-		free(t);
+		*handle = 0;
 		free(t->data);
+		free(t);
 		return SBDF_ERROR_OUT_OF_MEMORY;
 	}
 
